@@ -64,7 +64,7 @@ func (vc *VC) run() {
 	for i, p := range fn.Params {
 		v := vc.freshSV("p."+con.Params[i], p.Type())
 		vc.vals[p] = v
-		vc.params[con.Params[i]] = v
+		vc.params[con.Params[i]] = vc.typedSV(v, p.Type()) // w-c04: map-typed parameters usable with has()/m[k]
 		vc.assumeType("true", p.Type(), v, vc.st0)
 	}
 	for _, fv := range fn.FreeVars {
@@ -82,6 +82,7 @@ func (vc *VC) run() {
 		vc.st0.locals[fv] = cell
 		vc.vals[fv] = Pt{Kind: "local", Local: fv, Elem: pt.Elem()}
 	}
+	vc.onceLiteralEntry(vc.st0)
 	// requires
 	env := vc.newEnv(vc.st0, vc.st0, nil)
 	for _, r := range con.Requires {
@@ -101,10 +102,17 @@ func (vc *VC) run() {
 			vc.regions[f.Obligation] = r
 		}
 	}
+	vc.applyGhostEntry(st)
 	vc.obls = append(vc.obls, &Obligation{Name: vc.key + "/cover.pre", Kind: "cover", Func: vc.key, Prefix: len(vc.script), Guard: "true", Goal: "false"})
 	vc.reach[fn.Blocks[0]] = "true"
 	vc.edges[fn.Blocks[0]] = []edge{{nil, "true", st}}
+	vc.iterChecked = map[*Clause]bool{}
 	vc.processBlocks(vc.rpo)
+	for _, c := range con.IterEns {
+		if !vc.iterChecked[c] {
+			panic(specErr(fmt.Sprintf("%s:%d: `loop %d ensures %s` was not checked at any back edge (names not in scope?)", c.File, c.Line, c.Loop, c.Label)))
+		}
+	}
 	vc.finish()
 }
 
@@ -332,6 +340,7 @@ func (vc *VC) processBlock(b *ssa.BasicBlock) {
 		for _, d := range vc.loopDecs(li.index) {
 			vc.decAt[b] = append(vc.decAt[b], vc.define("variant", "Int", vc.evalInt(env, d.Expr)))
 		}
+		vc.snapHeader(b, st)
 	}
 	// instructions
 	for _, in := range b.Instrs {
@@ -411,6 +420,10 @@ func (vc *VC) dryRun(li *loopInfo, st *State, phis []*ssa.Phi) (map[string]bool,
 		saveCallN[k] = v
 	}
 	saveRets := len(vc.rets)
+	saveStrc := map[string]string{} // string constants declared during the dry run are rolled back with the script
+	for k, v := range vc.strc {
+		saveStrc[k] = v
+	}
 	vc.writes, vc.wlocal = map[string]bool{}, map[interface{}]bool{}
 	vc.dry++
 	d := st.clone()
@@ -445,11 +458,17 @@ func (vc *VC) dryRun(li *loopInfo, st *State, phis []*ssa.Phi) (map[string]bool,
 	vc.script = vc.script[:saveScript]
 	vc.obls = vc.obls[:saveObl]
 	vc.decl = saveDecl
+	for k, n := range vc.strc { // string constants first met inside the dry run lost their declaration (w-c19)
+		if !vc.decl[n] {
+			delete(vc.strc, k)
+		}
+	}
 	vc.edges = saveEdges
 	vc.vals = saveVals
 	vc.ord = saveOrd
 	vc.callN = saveCallN
 	vc.rets = vc.rets[:saveRets]
+	vc.strc = saveStrc
 	vc.writes, vc.wlocal = saveW, saveWL
 	return w, wl
 }
@@ -477,9 +496,7 @@ func (vc *VC) val(v ssa.Value) SV {
 	case *ssa.Const:
 		return vc.constSV(x)
 	case *ssa.Function:
-		name := "fn." + sanitize(funcKey(x))
-		vc.declare(name, "Fn")
-		return Sc{"Fn", name}
+		return Sc{"Fn", vc.fnConst(funcKey(x))} // fnis.go: declared + known non-nil
 	case *ssa.Global:
 		return Pt{Kind: "global", Local: x, Elem: x.Type().(*types.Pointer).Elem()}
 	case *ssa.Builtin:
@@ -584,14 +601,23 @@ func (vc *VC) finish() {
 		}
 		env := vc.newEnv(r.st, vc.st0, nil)
 		vc.bindResults(env, con, res)
+		vc.applyGhostExit(env, r.cond) // ghost.go
+		r.st = env.st
 		for _, c := range con.Ensures {
 			vc.oblige("post", "post."+c.Label+suffix, c.Props, r.cond, vc.evalBool(env, c.Expr), c.Text, r.pos)
 		}
 		vc.frameObligations(r.cond, r.st, suffix)
+		vc.capturedFrame(r.cond, r.st, suffix)
 	}
 }
 
 func (vc *VC) bindResults(env *Env, con *Contract, res []SV) {
+	if rs := vc.fn.Signature.Results(); rs.Len() == len(res) { // w-c04: map-typed results usable with has()/m[k]
+		res = append([]SV(nil), res...)
+		for i := range res {
+			res[i] = vc.typedSV(res[i], rs.At(i).Type())
+		}
+	}
 	if len(res) == 1 {
 		env.vars["result"] = res[0]
 	} else if len(res) > 1 {
@@ -605,7 +631,12 @@ func (vc *VC) bindResults(env *Env, con *Contract, res []SV) {
 	}
 }
 
-func isHeapVar(name string) bool { return strings.HasPrefix(name, "HS|") || strings.HasPrefix(name, "HF|") }
+// heaps indexed by reference: slice rows (HS), struct fields (HF) and the three map heaps (MD domain, ML length,
+// MV values; added by w-c04 so that `assigns fresh-only` functions may fill maps they allocate themselves)
+func isHeapVar(name string) bool {
+	return strings.HasPrefix(name, "HS|") || strings.HasPrefix(name, "HF|") ||
+		strings.HasPrefix(name, "MD|") || strings.HasPrefix(name, "ML|") || strings.HasPrefix(name, "MV|")
+}
 
 func (vc *VC) modifiable(name string) bool {
 	for _, m := range vc.con.Modifies {
@@ -631,7 +662,7 @@ func (vc *VC) frameObligations(reach string, st *State, suffix string) {
 	}
 	sort.Strings(names)
 	for _, k := range names {
-		if k == "alloc" || vc.modifiable(k) {
+		if k == "alloc" || vc.modifiable(k) || isIterGhost(k) {
 			continue
 		}
 		cur := st.vars[k]
